@@ -237,33 +237,6 @@ pub proof fn lemma_pred_in_bound(f: Formula, n: Seq<char>, k: nat)
     }
 }
 
-/// deduplication keeps the length only if there was nothing to remove
-pub proof fn lemma_extend_len<T>(s: Seq<T>, t: Seq<T>)
-    ensures
-        seq_extend(s, t).len() <= s.len() + t.len(),
-        seq_extend(s, t).len() == s.len() + t.len() ==> (forall|i: int, j: int| 0 <= i < j < t.len() ==> t[i] != t[j]) && (forall|i: int| 0 <= i < t.len() ==> !s.contains(t[i])),
-    decreases t.len(),
-{
-    if t.len() > 0 {
-        let s1 = seq_insert(s, t[0]);
-        let rest = t.drop_first();
-        lemma_extend_len(s1, rest);
-        if seq_extend(s, t).len() == s.len() + t.len() {
-            assert(s1.len() == s.len() + 1);
-            assert(!s.contains(t[0]));
-            assert forall|i: int| 0 <= i < t.len() implies !s.contains(t[i]) by {
-                if i > 0 {
-                    assert(!s1.contains(rest[i - 1]));
-                    if s.contains(t[i]) { let q = choose|q: int| 0 <= q < s.len() && s[q] == t[i]; assert(s1[q] == t[i]); }
-                }
-            }
-            assert forall|i: int, j: int| 0 <= i < j < t.len() implies t[i] != t[j] by {
-                if i == 0 { assert(!s1.contains(rest[j - 1])); assert(s1[s.len() as int] == t[0]); } else { assert(rest[i - 1] != rest[j - 1]); }
-            }
-        }
-    }
-}
-
 /// what the checks of CheckInternal::definition establish, in the vocabulary of the executable code
 pub proof fn lemma_def_ok(f: Formula, taken: Seq<Predicate>, p: Predicate, uniques: Seq<Variable>, tvs: Seq<Variable>)
     requires
